@@ -1,0 +1,18 @@
+//go:build verif
+
+package geom
+
+// Bit-precise (IEEE-754) contracts for the floating-point kernels.
+
+//@ prop C17
+
+//@ func snapToGridFloat64
+//@   timeout 120
+//@   requires finite(f) && -1e300 <= f && f <= 1e300 && -320 <= dp && dp <= 320
+//@   ensures finite(result)
+
+
+// Over the reals (rounding ignored): snapping moves an ordinate by at most half a grid step.
+//@ lemma snap_half_step_pos mode=real: forall f: float64, dp: int :: 1 <= dp && dp <= 320 ==> abs(snapToGridFloat64(f, dp) * pow10(dp) - f * pow10(dp)) <= 0.5
+//@ lemma snap_half_step_zero mode=real: forall f: float64 :: abs(snapToGridFloat64(f, 0) - f) <= 0.5
+//@ lemma snap_odd_real mode=real: forall f: float64, dp: int :: -320 <= dp && dp <= 320 ==> snapToGridFloat64(-f, dp) == -snapToGridFloat64(f, dp)
